@@ -43,7 +43,8 @@ TraceStep(e) ==
   \/ /\ e.call = "get_output"  /\ GetOutput(e.obj) /\ Common(e) /\ Seen(e)
      /\ obs'.recT = e.recT /\ obs'.recN = e.recN /\ e.dataok
   \/ /\ e.call = "finalize"    /\ Finalize(e.obj) /\ Common(e)
-  \/ /\ e.call \notin {"setup", "finalize", "is_complete"} /\ Undefined(e.obj)   \* global sharing only
+  \/ /\ e.call = "drop"        /\ Drop(e.obj) /\ Common(e)
+  \/ /\ e.call \notin {"setup", "finalize", "is_complete", "drop"} /\ Undefined(e.obj)   \* global sharing only
   \/ /\ undef /\ UNCHANGED vars                                               \* after undefined behaviour anything goes
 
 TraceInit == Init /\ tid \in 1..Len(Traces) /\ l = 1
